@@ -56,6 +56,30 @@ def write_behaviours(path, behs, src):
             fh.write(json.dumps(to_json(b, src)) + "\n")
 
 
+def harness_env(ctx, extra=None):
+    """the harness needs one knob app/ocache does not export (the close deadline): a verif-tagged file
+    is added to the package at build time with -overlay; the repository itself is not touched"""
+    ov = os.path.join(ctx.scratch, "ocache-overlay.json")
+    if not os.path.exists(ov):
+        with open(ov, "w") as fh:
+            json.dump({"Replace": {os.path.join(ctx.repo, "app/ocache/zz_verif_knobs.go"):
+                                   os.path.join(os.path.dirname(os.path.dirname(os.path.abspath(__file__))),
+                                                "harness/inpkg/ocache/zz_verif_knobs.go")}}, fh)
+    env = {"GOFLAGS": "-mod=mod -overlay=" + ov}
+    env.update(extra or {})
+    return env
+
+
+def is_deadline_schedule(b):
+    """does the schedule let the deadline of a cache Close expire?"""
+    kinds = [o.split(".")[0] for o in b[0].split(",")]
+    for st in b[2]:
+        f = st.split(":")
+        if f[1] == "Cancel" and kinds[int(f[0]) - 1] == "Close":
+            return True
+    return False
+
+
 def generate(ctx, cfg, name, simulate=None, depth=None, timeout=1500):
     res = ctx.tlc("ocache", "OCacheGen", cfg, workers=(1 if simulate else min(4, ctx.cores)), simulate=simulate, depth=depth, timeout=timeout,
                   count=False, deadlock=True, name=name)
@@ -67,7 +91,8 @@ def generate(ctx, cfg, name, simulate=None, depth=None, timeout=1500):
     return behs
 
 
-ASIS = [("OCache_asis_panic.cfg", "NoPanic", "TryRemove during a load calls TryClose on a nil value"),
+ASIS = [("OCache_dev_boundloads.cfg", "NoneOpenAfterShutdown", "Close gives up on an in-flight load at its deadline"),
+        ("OCache_asis_panic.cfg", "NoPanic", "TryRemove during a load calls TryClose on a nil value"),
         ("OCache_asis_leak.cfg", "NoneOpenAfterShutdown", "Add on a closed cache leaves an open instance"),
         ("OCache_asis_stuck.cfg", "NoStuck", "TryRemove leaves the entry closing when TryClose returns an error")]
 
@@ -134,7 +159,7 @@ def validate_trace(ctx, trace, runs_dir, name="trace-validation", expect_reject=
 def run(ctx):
     thorough = ctx.tier == "thorough"
     if ctx.replay:
-        ctx.go_test("./ocache", run="TestReplay$", timeout=900)
+        ctx.go_test("./ocache", run="TestReplay$", timeout=900, env=harness_env(ctx))
         return
     rnd = random.Random(ctx.seed)
     workers = min(12, ctx.cores)
@@ -150,10 +175,11 @@ def run(ctx):
                               workers=workers, count=False, name="random walks 2 ids, 4 ops")
         else:
             ctx.tlc_expect_ok("ocache", "OCacheMC", "OCache_mc_q.cfg", timeout=1500, workers=workers, name="mc 1 id, 2-3 ops")
-            ctx.tlc_expect_ok("ocache", "OCacheMC", "OCache_mc_q2.cfg", coverage=True, timeout=1500, workers=workers, name="mc 2 ids, 2 ops")
+            ctx.tlc_expect_ok("ocache", "OCacheMC", "OCache_mc_q2.cfg", timeout=1500, workers=workers, name="mc 2 ids, 2 ops")
         # the as-is behaviour of the three repaired defects is kept as disabled deviations; the model
         # checker must still find each of them (otherwise the model lost the ability to see the defect)
-        for cfg, inv, what in (ASIS if thorough else ASIS[:]):
+        # (quick: only the deviation that is not a repaired defect; thorough: all four)
+        for cfg, inv, what in (ASIS if thorough else ASIS[:1]):
             res = ctx.tlc("ocache", "OCacheMC", cfg, workers=2, timeout=600, count=False, name="as-is " + inv)
             if res.timed_out or res.error != "invariant" or res.error_name != inv:
                 raise CheckBroken("as-is deviation (%s) is no longer found by TLC: error=%s %s" % (what, res.error, res.error_name))
@@ -172,8 +198,14 @@ def run(ctx):
         per_gen[name] = len(b)
         limit = int(os.environ.get("C16_REPLAY_LIMIT", "0") or 0) or lim or len(b)
         if len(b) > limit:
-            rnd.shuffle(b)
-            b = b[:limit]
+            # the schedules in which Close's deadline expires are few and always replayed (2-op ones all)
+            dl = [x for x in b if is_deadline_schedule(x)]
+            rest = [x for x in b if not is_deadline_schedule(x)]
+            rnd.shuffle(dl)
+            rnd.shuffle(rest)
+            dl = dl[:1000]
+            b = dl + rest[:max(0, limit - len(dl))]
+            per_gen[name + " (deadline schedules replayed)"] = len(dl)
         behs += [to_json(x, name) for x in b]
     if "C16_GEN_CFG" not in os.environ:
         sim = generate(ctx, "OCacheGen_sim.cfg", "random schedules 2 ids, 3-4 ops", simulate=(6000 if thorough else 500), depth=200)
@@ -185,14 +217,14 @@ def run(ctx):
         for b in behs:
             fh.write(json.dumps(b) + "\n")
     if os.environ.get("C16_SKIP_REPLAY") != "1":
-        ctx.go_test("./ocache", run="TestReplay$", env={"VERIF_BEHAVIOURS": path}, timeout=3000)
+        ctx.go_test("./ocache", run="TestReplay$", env=harness_env(ctx, {"VERIF_BEHAVIOURS": path}), timeout=3000)
     # 3. code -> spec: ungated random runs under the race detector, recorded through the hooks
     if os.environ.get("C16_SKIP_TRACE") != "1":
         trace = os.path.join(ctx.scratch, "ocache-trace.ndjson")
         runs_dir = os.path.join(ctx.scratch, "runs")
         os.makedirs(runs_dir)
         rep = ctx.go_test("./ocache", run="TestRecord$", race=True, timeout=1500,
-                          env={"VERIF_TRACE_OUT": trace, "VERIF_RUNS_DIR": runs_dir, "VERIF_RUNS": os.environ.get("C16_RUNS") or (40 if thorough else 12)})
+                          env=harness_env(ctx, {"VERIF_TRACE_OUT": trace, "VERIF_RUNS_DIR": runs_dir, "VERIF_RUNS": os.environ.get("C16_RUNS") or (40 if thorough else 12)}))
         ctx.cov["trace_events_validated"] = rep["extra"].get("trace_events", 0)
         ctx.cov["recorded_operations"] = rep["extra"].get("recorded_operations", 0)
         validate_trace(ctx, trace, runs_dir)
